@@ -117,6 +117,19 @@ func RunSpecial(c SCase) pbt.Outcome {
 		if !sort.IntsAreSorted(s) {
 			return pbt.Fail("Sort on the %d-element adversarial input built against %s is not ascending", c.N, c.Fn)
 		}
+		slices.SortDesc(s)
+		for i, v := range s {
+			if v != c.N-1-i {
+				return pbt.Fail("SortDesc on the %d-element adversarial input built against %s: position %d holds %d, want %d", c.N, c.Fn, i, v, c.N-1-i)
+			}
+		}
+		s = append(s[:0], in...)
+		slices.SortDesc(s)
+		for i, v := range s {
+			if v != c.N-1-i {
+				return pbt.Fail("SortDesc on the %d-element adversarial input built against %s: position %d holds %d, want %d", c.N, c.Fn, i, v, c.N-1-i)
+			}
+		}
 		return pbt.Outcome{Evals: 5, NonTrivial: c.N >= 50, Labels: []string{"adversarial-input"}}
 	case "iface":
 		s := make(byWeird, c.N)
@@ -170,13 +183,13 @@ func RunSpecial(c SCase) pbt.Outcome {
 
 var specSpecial = pbt.Register(&pbt.Spec[SCase]{
 	Property: "C15", Name: "C15.special",
-	Rule: "enumerated special inputs: (a) for each of the four Func sorts and n in {20,60,100,300,1000} (thorough also 5000) the antiquicksort adversary is run against that sort itself and the resulting fixed input is sorted by all " +
-		"sorts (permutation + order); (b) named slice types that carry their own sort.Interface methods with a different Less, n in 0..40; (c) BinarySearchFunc over huge slices of zero-size elements (len MaxInt, MaxInt/2+1, ...); " +
+	Rule: "enumerated special inputs: (a) for each of the four Func sorts and n in {20,60,100,300,1000,4097,2^14+1} (thorough also 5000, 2^16+1, 2^18-1) the antiquicksort adversary is run against that sort itself and the resulting fixed input is sorted by all " +
+		"sorts incl. Sort and SortDesc (permutation + order); (b) named slice types that carry their own sort.Interface methods with a different Less, n in 0..40; (c) BinarySearchFunc over huge slices of zero-size elements (len MaxInt, MaxInt/2+1, ...); " +
 		"non-trivial = adversarial input of >=50 elements, named type with >=3 elements, zero-size slice longer than MaxInt/2; one case in eight is run once more as 4 independent copies in parallel goroutines",
 	Enum: func(shard, shards int, tier string, yield func(SCase) bool) {
-		sizes := []int{20, 60, 100, 300, 1000}
+		sizes := []int{20, 60, 100, 300, 1000, 4097, 1<<14 + 1}
 		if tier == "thorough" {
-			sizes = append(sizes, 5000)
+			sizes = append(sizes, 5000, 1<<16+1, 1<<18-1)
 		}
 		for _, fn := range []string{"SortFunc", "SortDescFunc", "SortStableFunc", "SortStableDescFunc"} {
 			for _, n := range sizes {
